@@ -185,21 +185,26 @@ theorem lookup_bindKeys (rest : Env) (ks : List Str) (x : String) (hx : x ≠ "k
     rw [ih, lookup_assocSet_ne _ _ _ _ hx]
 
 /-- The loop deletes the keys from the map one after the other (an absent key is skipped) and changes nothing else but
-its own variable. -/
-theorem delLoop_run (cx : Ctx) : ∀ (ks : List Str) (m : List (Str × PyV)) (fs : List (String × Field)) (rest : Env),
+its own variable; the list it iterates over (`V`, held by `keysToRemove`) stays what it was. -/
+theorem delLoop_run (cx : Ctx) (V : Val) (same : Env → Bool)
+    (hsame : ∀ fs rest, rest.lookup "keysToRemove" = some V → same (("self", .obj fs) :: rest) = true) :
+    ∀ (ks : List Str) (m : List (Str × PyV)) (fs : List (String × Field)) (rest : Env),
+    rest.lookup "keysToRemove" = some V →
     fs.lookup "cachedCompiledExpressions" = some (.dict (embD m)) →
-    forLoop (fun env v => assocSet env "keyToRemove" v) (fun env => execL cx env delBody) ((embK ks).map Val.py)
+    forLoop (fun env v => assocSet env "keyToRemove" v) (fun env => execL cx env delBody) same ((embK ks).map Val.py)
         (("self", .obj fs) :: rest)
       = (("self", .obj (assocSet fs "cachedCompiledExpressions" (.dict (embD (ks.foldl Cache.dictDel m))))) :: bindKeys rest ks,
          .next) := by
   intro ks
   induction ks with
   | nil =>
-    intro m fs rest hf
+    intro m fs rest _ hf
     simp only [embK, List.map_nil, forLoop, List.foldl_nil, bindKeys]
     rw [assocSet_self _ _ _ hf]
   | cons k r ih =>
-    intro m fs rest hf
+    intro m fs rest hV hf
+    have hV' : (assocSet rest "keyToRemove" (.py (.str k))).lookup "keysToRemove" = some V := by
+      rw [lookup_assocSet_ne _ _ _ _ (by decide), hV]
     have hstep : execL cx (assocSet (("self", .obj fs) :: rest) "keyToRemove" (.py (.str k))) delBody
         = (("self", .obj (assocSet fs "cachedCompiledExpressions" (.dict (embD (Cache.dictDel m k)))))
             :: assocSet rest "keyToRemove" (.py (.str k)), .next) := by
@@ -211,9 +216,9 @@ theorem delLoop_run (cx : Ctx) : ∀ (ks : List Str) (m : List (Str × PyV)) (fs
       | some v =>
         simp [delBody, execL, execS, eval, List.lookup, assocSet, lookup_assocSet_eq, getField, hf, hashable, dGet_emb,
           hg, putField, dDel_emb]
-    simp only [embK, List.map_cons, forLoop, hstep]
+    simp only [embK, List.map_cons, forLoop, hstep, hsame _ _ hV', if_true]
     have := ih (Cache.dictDel m k) (assocSet fs "cachedCompiledExpressions" (.dict (embD (Cache.dictDel m k))))
-      (assocSet rest "keyToRemove" (.py (.str k))) (lookup_assocSet_eq _ _ _)
+      (assocSet rest "keyToRemove" (.py (.str k))) hV' (lookup_assocSet_eq _ _ _)
     simp only [embK] at this
     rw [this, assocSet_assocSet]
     rfl
@@ -243,7 +248,9 @@ theorem delLoop_stmt (cx : Ctx) (ks : List Str) (m : List (Str × PyV)) (fs : Li
   have hv : eval cx (("self", .obj fs) :: rest) (.var "keysToRemove") = .ok (.list (embK ks)) := by
     simp [eval, List.lookup, hk]
   simp only [hv, iterItems, Expr.isVar, Bool.or_true, Bool.true_or, if_true]
-  exact delLoop_run cx ks m fs rest hf
+  refine delLoop_run cx (.list (embK ks)) _ ?_ ks m fs rest hk hf
+  intro fs' rest' h
+  simp [eval, List.lookup, h]
 
 /-! the same, on the environments the two methods have at their loops (everything is then determined by the left side) -/
 
